@@ -58,6 +58,7 @@ static void mon_fail(const char *sig, const char *fmt, ...)
     m_failed = 1;
     snprintf(m_fail_sig, sizeof m_fail_sig, "%s", sig);
     va_list ap; va_start(ap, fmt); vsnprintf(m_fail_detail, sizeof m_fail_detail, fmt, ap); va_end(ap);
+    { char w[140]; snprintf(w, sizeof w, "mon:%s", sig); hx_ctx_add(w); }
 }
 
 static void mon_reset(void)
@@ -161,9 +162,12 @@ static int compute_chain(int pnum, int p, int w, long bcol)
     return unfinished;
 }
 
+static int s_trace = -1;
 static void mon_event(int kind, long pnum, long a, long b, long c, const void *ctx)
 {
     g_mon.events++;
+    if (s_trace < 0) s_trace = getenv("HX_TRACE") ? 1 : 0;
+    if (s_trace) { char tb[120]; int L = snprintf(tb, sizeof tb, "EV k=%d p=%ld a=%ld b=%ld c=%ld\n", kind, pnum, a, b, c); ssize_t w_ = write(2, tb, L); (void)w_; }
     const pxgstrf_shared_t *sh = m_sh;
     int n = m_n;
     switch (kind) {
@@ -238,6 +242,13 @@ static void mon_event(int kind, long pnum, long a, long b, long c, const void *c
         m_done_seen[p] = 1;
         break; }
     case SLUV_NEWNSUPER: g_mon.newnsuper++; break;
+    case SLUV_SINGULAR: {
+        g_mon.singular_events++;
+        if (c <= b) { /* nsupr == nsupc: the column has no candidate pivot row at all */
+            hx_ctx_add("no_candidate_row");
+            g_mon.no_candidate++;
+        }
+        break; }
     case SLUV_LUSUP_ALLOC: {
         g_mon.lusup_allocs++;
         const GlobalLU_t *Glu = (const GlobalLU_t *)ctx;
@@ -249,16 +260,23 @@ static void mon_event(int kind, long pnum, long a, long b, long c, const void *c
             /* fs must be a leading column with a known slot end */
             if (fs < 0 || fs >= m_n + 1 || m_slot_end[fs] < 0) { mon_fail("C05:lusup_alloc_not_in_slot", "column %ld maps to leading column %ld which has no slot", a, fs); break; }
             long slack = m_slot_end[fs] - end;
+            if (slack == 0) g_mon.tight_slots++;
             if (slack < 0) mon_fail("C05:supernode_outgrows_slot", "column %ld: L supernode storage [%ld,%ld) exceeds the slot reserved for leading column %ld (ends %ld)", a, c, end, fs, m_slot_end[fs]);
             if (g_mon.min_slack < 0 || slack < g_mon.min_slack) g_mon.min_slack = slack;
         } else {
             if (end > Glu->nzlumax) mon_fail("C05:lusup_beyond_nzlumax", "column %ld: storage end %ld > nzlumax %ld", a, end, (long)Glu->nzlumax);
+            if (fs >= 0 && fs <= m_n && m_slot_end[fs] > 0) {   /* slot handed out by DynamicSetMap for this H-supernode */
+                long slack = m_slot_end[fs] - end;
+                if (slack == 0) g_mon.tight_slots++;
+                if (slack < 0) mon_fail("C05:supernode_outgrows_dynamic_slot", "column %ld: L supernode storage [%ld,%ld) exceeds the slot [..,%ld) that pxgstrf_super_bnd_dfs/DynamicSetMap reserved for leading column %ld (dynamic supernode storage)", a, c, end, m_slot_end[fs], fs);
+            }
         }
         break; }
     case SLUV_DYN_SETMAP: {
         g_mon.dyn_setmaps++;
         const GlobalLU_t *Glu = (const GlobalLU_t *)ctx;
         if (Glu && c + b > Glu->nzlumax) mon_fail("C05:dyn_slot_beyond_nzlumax", "dynamic slot [%ld,%ld) > nzlumax %ld", c, c + b, (long)Glu->nzlumax);
+        if (m_have_map && a >= 0 && a <= m_n) m_slot_end[a] = c + b;
         break; }
     case SLUV_PRUNE_BEGIN: g_mon.prunes++; if (pnum >= 0 && pnum < MAXP) { m_prune_open[pnum] = 1;
             for (int t = 0; t < MAXP; ++t) if (t != pnum && m_dfs_open[t]) { g_mon.prune_while_dfs++; break; } } break;
